@@ -5,6 +5,8 @@ import (
 	"go/types"
 	"os"
 	"strings"
+
+	"golang.org/x/tools/go/ssa"
 )
 
 func init() {
@@ -33,4 +35,12 @@ func dbgFacts(c *Config, p []Fact) string {
 		out = append(out, fmt.Sprintf("%s:%v[%s]", shortPos(c.pos(v.Pos())), t, v.String()))
 	}
 	return strings.Join(out, " ; ")
+}
+
+func dbgVals(vs []ssa.Value) string {
+	var out []string
+	for _, v := range vs {
+		out = append(out, fmt.Sprintf("%T:%s", v, v.String()))
+	}
+	return strings.Join(out, " | ")
 }
